@@ -31,24 +31,36 @@ func (w *World) checkOutPrefix(cs *connState, complete bool) {
 	}
 	exp := expectedOut(cs.W)
 	limit := len(exp)
-	var tail []byte
+	// after the accepted operations the stream may continue with a proper
+	// prefix of an operation that failed midway, followed by a prefix of the
+	// best-effort writes made inside OnClose
+	var failed []byte
 	if cs.failed != nil && cs.failed.n > 0 {
-		tail = outPayload(cs.failed.id, cs.failed.n)
+		failed = outPayload(cs.failed.id, cs.failed.n)
 	}
-	for i, b := range rx {
-		var want byte
-		switch {
-		case i < limit:
-			want = exp[i]
-		case i-limit < len(tail):
-			want = tail[i-limit]
-		default:
-			w.violate("C02", "extra-bytes", "conn %d: peer received %d bytes, only %d were accepted by write operations (%d ops)", cs.idx, len(rx), limit, len(cs.W))
+	tail := expectedOut(cs.tail)
+	for i := 0; i < len(rx) && i < limit; i++ {
+		if rx[i] != exp[i] {
+			op, off := w.locateOut(cs, i)
+			w.violate("C02", "content", "conn %d: byte %d of the stream the peer received is %#x, expected %#x (operation #%d offset %d of the accepted sequence)", cs.idx, i, rx[i], exp[i], op, off)
 			return
 		}
-		if b != want {
-			op, off := w.locateOut(cs, i)
-			w.violate("C02", "content", "conn %d: byte %d of the stream the peer received is %#x, expected %#x (operation #%d offset %d of the accepted sequence)", cs.idx, i, b, want, op, off)
+	}
+	if len(rx) > limit {
+		rest := rx[limit:]
+		lcp := 0
+		for lcp < len(rest) && lcp < len(failed) && rest[lcp] == failed[lcp] {
+			lcp++
+		}
+		ok := false
+		for k := lcp; k >= 0 && !ok; k-- {
+			r2 := rest[k:]
+			if len(r2) <= len(tail) && string(r2) == string(tail[:len(r2)]) {
+				ok = true
+			}
+		}
+		if !ok {
+			w.violate("C02", "extra-bytes", "conn %d: peer received %d bytes, %d were accepted by write operations (%d ops); the %d bytes beyond are neither a prefix of the operation that failed (%d bytes) nor of the writes made inside OnClose (%d bytes)", cs.idx, len(rx), limit, len(cs.W), len(rest), len(failed), len(tail))
 			return
 		}
 	}
